@@ -6,6 +6,8 @@ package main
 //   (b) GLV-unbalanced scalars: s = a + b·λ mod r whose decomposition (k1,k2) by the real lattice has halves of different
 //       64-bit word counts, in both directions (k1 ≪ k2, k2 ≪ k1), and inverses of small integers mod r;
 //   (c) batch sizes on both sides of every change of the window size chosen by BatchScalarMultiplication (`batchpow`).
+//   (d) scalars far outside [0, r): both signs, 1× … 4× and more the bit length of the order, every entry point incl. the two
+//       scalars of JointScalarMultiplication independently (see c03FarBits below).
 
 import (
 	"math/big"
@@ -297,4 +299,89 @@ func (g *c03Group) batchPow(rest []string) string {
 		o = append(o, pts[i])
 	}
 	return strings.Join(o, " ")
+}
+
+// class (d): scalars far outside [0, r) — both signs, 1× … 4× (and more) the bit length of the order, beyond the 64·fr.Limbs bits
+// of the word array the loops index. Three zones of total bit length T: A = just above r up to just past the word array,
+// B = around twice the order (1.5n … 2.5n: where a rounded GLV decomposition starts to return negative / over-long halves),
+// C = 3n and more (3n, 4n, two word arrays, 1000, 3001).
+//   cheap : ±(k·r + t), k of T − n bits (random, 2^j, 2^j − 1, r, r ± 1), t ∈ {0, ±1, ± up to 16 bits}: the specification value is
+//           [±t]P (one short multiplication on the model side) while the implementation sees a scalar whose bits look random at
+//           every position; also r − t, t − r·k … through the sign of t;
+//   costly: ± random of exactly T bits, ±2^T, ±(2^T − 1) (full-length residue).
+type c03FarZones struct{ A, B, C []int }
+
+func c03FarBits(n, limbs int) c03FarZones {
+	w := 64 * limbs
+	uniq := func(l []int) (o []int) {
+		seen := map[int]bool{}
+		for _, v := range l {
+			if v > n && !seen[v] {
+				seen[v] = true
+				o = append(o, v)
+			}
+		}
+		return
+	}
+	return c03FarZones{
+		A: uniq([]int{n + 1, n + 2, n + 9, w - 1, w, w + 1, w + 2, w + 63, w + 64, w + 65}),
+		B: uniq([]int{3 * n / 2, 3*n/2 + 1, 2*n - 2, 2*n - 1, 2 * n, 2*n + 1, 2*n + 2, 2*n + 6, 2*n + 8, 2*n + 16, 2*n + 31, 5 * n / 2, 2*w - 1, 2 * w, 2*w + 1}),
+		C: uniq([]int{3*n - 1, 3 * n, 3*n + 1, 3*n + 5, 7 * n / 2, 4*n - 1, 4 * n, 4*n + 3, 3*w + 1, 4*w + 1, 5 * n, 1000, 3001}),
+	}
+}
+
+// ±(k·r + t) of about T bits
+func c03FarCheap(rg *rng, r *big.Int, T int, neg bool) *big.Int {
+	n := r.BitLen()
+	kb := T - n + 1
+	if kb < 1 {
+		kb = 1
+	}
+	one := big.NewInt(1)
+	var k *big.Int
+	switch rg.intn(8) {
+	case 0:
+		k = bigPow2(kb - 1)
+	case 1:
+		k = new(big.Int).Sub(bigPow2(kb), one)
+	default:
+		k = rg.bigExact(kb)
+	}
+	if kb >= n && kb <= n+1 && rg.intn(3) == 0 { // s = r² + t, (r ± 1)·r + t
+		k = new(big.Int).Add(r, big.NewInt(int64(rg.intn(3)-1)))
+	}
+	var t *big.Int
+	switch rg.intn(6) {
+	case 0:
+		t = new(big.Int)
+	case 1:
+		t = big.NewInt(1)
+	case 2:
+		t = big.NewInt(-1)
+	default:
+		t = rg.signed(rg.bigBits(1 + rg.intn(16)))
+	}
+	s := new(big.Int).Mul(k, r)
+	s.Add(s, t)
+	if neg {
+		s.Neg(s)
+	}
+	return s
+}
+
+// ± random of exactly T bits / ±2^T / ±(2^T − 1)
+func c03FarCostly(rg *rng, T int, shape int, neg bool) *big.Int {
+	var s *big.Int
+	switch shape % 4 {
+	case 0, 1:
+		s = rg.bigExact(T)
+	case 2:
+		s = bigPow2(T)
+	default:
+		s = new(big.Int).Sub(bigPow2(T), big.NewInt(1))
+	}
+	if neg {
+		s.Neg(s)
+	}
+	return s
 }
